@@ -7,6 +7,10 @@ TECH = "bounded symbolic execution of the real code's go/ssa form, every branch/
 BASE = "cd /repo && go test -vet=off -count=1 -timeout 25m ./..."
 
 CLAIMED = {
+ "C19": dict(
+   text="frame.Codec.Decode from an ARBITRARY buffer (sizes <= 2^40, arbitrary bytes, arbitrary 4-byte prefix): outcome class, payload bytes at an arbitrary index, prefix consumed, rest of stream kept, declared length > 1 GiB => error with no buffering (capacity unchanged); the lazy consume step separately; Encode into an arbitrary buffer for payloads 0..2 GiB; CodecConn.WriteNext/AsyncWriteNext over a scripted transport with partial writes: transport receives exactly prefix++payload and nothing stays behind; ReadNext/AsyncReadNext of one item of symbolic length delivered in <= 3/4 segments of symbolic sizes (split points anywhere); two items of length <= 2/3 written then read under every segmentation (concrete sizes).",
+   note="Trusts go/ssa, the engine, z3/cvc5. Transport model: reads return 1..min(len,remaining) bytes, writes accept 1..len bytes. Histories longer than two items and more than 3/4 segments per item are outside the claim.",
+   ref="DESIGN.md §4 C19"),
  "C07": dict(
    text="FrameCodec.Decode is executed symbolically from an ARBITRARY source buffer (any si<=ri<=wi<=cap<=2^40, arbitrary bytes, any max in [0,2^40]) and compared with an independent RFC 6455 header parser written in the harness: outcome class (frame / need-more / error), frame bytes at an arbitrary index, declared length (all of 7/16/64-bit classes incl. >= 2^63), no stream byte lost or altered, decoder left in sync; the lazy consume of the previous frame (resetDecode) is a second inductive step; Encode->Decode round trip for arbitrary well-formed frames of every header-bit combination and length class. No panic on any input within the bounds.",
    note="Split independence follows from the inductive formulation: need-more leaves every stream byte in place (asserted) and the next step starts from an arbitrary state. Trusts go/ssa, the engine, z3/cvc5. Buffer sizes <= 2^40.",
